@@ -338,6 +338,9 @@ theorem C05_gate (d : Defects) (s : St) (st f : Int) (w : Bool) (sys : Int) (dcd
   · simp [step, handleData, delivers, reject]
   · exact absurd rfl hc
 
+/-- non-vacuity: an uncatalogued, undecodable S99F1 with the W-bit while NOT SELECTED is rejected with its system bytes, reason 4 -/
+example : (step .code ⟨.notSelected, false, false, 7, []⟩ (.rxData 99 1 true 12 false)).2 = [.tx 7 12 0 4] := by decide
+
 /-- **SELECTED delivers exactly once.**  A data message received while SELECTED produces exactly one output: it is put on the queue of
 the requester waiting on its system bytes if there is one, otherwise handed to the application (`message_received`); no frame is
 written and the connection state stays SELECTED.  Holds for every stream/function, W-bit and body. -/
@@ -348,6 +351,10 @@ theorem C05_selected_delivers (d : Defects) (s : St) (st f : Int) (w : Bool) (sy
   simp only at hc; subst hc
   simp only [step, handleData]
   by_cases ho : isOpen ⟨.selected, dc, ac, ctr, opn⟩ sys = true <;> simp [ho, closeSys]
+
+/-- non-vacuity: SELECTED with a requester waiting on 1001: that message goes to the requester, any other to the application -/
+example : (step .code ⟨.selected, false, true, 1001, [(1001, .select)]⟩ (.rxData 1 1 true 1001 true)).2 = [.deliverWaiter 1001]
+    ∧ (step .code ⟨.selected, false, true, 1001, [(1001, .select)]⟩ (.rxData 1 1 true 5 true)).2 = [.deliverApp 5] := by decide
 
 /-- **The three statements at every point of every history** (from any start state, for both variants). -/
 theorem C05_history_responses (d : Defects) (s0 : St) (is : List In) :
